@@ -424,6 +424,39 @@ def m_res_map_err(interp, fn, args, st, site, frame):
     return out
 
 
+def m_res_map(interp, fn, args, st, site, frame):
+    out = []
+    for (v, st2) in res_cases(interp, args[0], st, "res@" + site):
+        if v.variant == 1:
+            out.append((v, st2))
+        else:
+            r = _call_fnlike(interp, args[1], [v.fields[0]], st2, frame, site, "map")
+            if r is None:
+                out.append((ok(Top("map@" + site)), st2))
+            else:
+                for (x, st3) in r:
+                    out.append((ok(x), st3))
+    return out
+
+
+def m_res_and_then(interp, fn, args, st, site, frame):
+    out = []
+    for (v, st2) in res_cases(interp, args[0], st, "res@" + site):
+        if v.variant == 1:
+            out.append((v, st2))
+        else:
+            r = _call_fnlike(interp, args[1], [v.fields[0]], st2, frame, site, "and_then")
+            out.extend(r if r is not None else [(Top("and_then@" + site), st2)])
+    return out
+
+
+def m_res_unwrap_or(interp, fn, args, st, site, frame):
+    out = []
+    for (v, st2) in res_cases(interp, args[0], st, "res@" + site):
+        out.append((v.fields[0] if v.variant == 0 else args[1], st2))
+    return out
+
+
 def m_res_ok(interp, fn, args, st, site, frame):
     out = []
     for (v, st2) in res_cases(interp, args[0], st, "res@" + site):
@@ -950,6 +983,9 @@ BASE_MODELS = [
     (r"as std::ops::Try>::branch$", m_try_branch),
     (r"as std::ops::FromResidual<.*>>::from_residual$", m_from_residual),
     (r"^std::result::Result::<.*>::map_err", m_res_map_err),
+    (r"^std::result::Result::<.*>::map::<", m_res_map),
+    (r"^std::result::Result::<.*>::and_then", m_res_and_then),
+    (r"^std::result::Result::<.*>::unwrap_or$", m_res_unwrap_or),
     (r"^std::result::Result::<.*>::ok$", m_res_ok),
     (r"^std::result::Result::<.*>::is_ok$|^std::result::Result::<.*>::is_err$", m_res_is_ok),
     (r"as std::clone::Clone>::clone$", m_clone),
